@@ -193,6 +193,10 @@ def run(ctx):
     from ..etf import check_identifier_fields_verbatim
     check_identifier_fields_verbatim(ctx, 'C03.2-identifier-fields-verbatim')
 
+    ctx.rule('C03.2-scalars-verbatim', 'no number changes value: the Float / Integer a parser builds is the number it read from the wire (widened at most), not the result of arithmetic or of a normalising helper', floor=6)
+    from ..etf import check_scalars_verbatim
+    check_scalars_verbatim(ctx, 'C03.2-scalars-verbatim')
+
     # ---------------- clause 7: the order that keys decoded maps ---------------------------------------------------
     ctx.rule('C03.7-map-key-order', 'MAP_EXT entries are collected into a BTreeMap keyed by the term type: "no map entry is dropped or merged" needs an order under which two different keys never compare Equal - '
              'the comparator rules of C11/C12 (no self-comparison, big integers by sign, length and digits from the most significant end, no truncating reads, lists with the length as tie-break ...) re-run here', floor=60)
